@@ -69,8 +69,9 @@ RefAt(s)   == CASE s = "v" -> VRefAt [] s = "w" -> WRefAt [] s = "x" -> XRefAt
                 [] s = "o" -> ORefAt [] s = "q" -> {}
 NextSlot(s) == CASE s = "o" -> "v" [] s = "v" -> "w" [] s = "w" -> "x" [] s = "x" -> "v" [] s = "q" -> "q"
 Used(s) == Allowed(s) # {}
-(* the component's command line is "%(v)s" whenever v takes part in the run *)
-ArgsUseV == Used("v")
+(* the component's command line refers to every variable that takes part in the run: "%(v)s %(w)s %(x)s".  The   *)
+(* driver gives the three variables names that contain one another (alpha, alpha2, my-alpha).                    *)
+ArgsUse == {s \in {"v", "w", "x"} : Used(s)}
 
 (* numeric identity of a definition: the driver writes it into the documents, the expected result lists it *)
 LayerCode(l) == CASE l = "builtin" -> 10 [] l = "dg" -> 11 [] l = "ds" -> 12 [] l = "p1g" -> 13 [] l = "p1s" -> 14
@@ -139,7 +140,7 @@ Resolve(Q, s) == Chain(Q, s, {})
 (* What is resolved when the configuration of the component is requested: the options of the run, the command   *)
 (* line, and every variable visible to the component (the resolved configuration carries the resolved variables) *)
 Visible(Q)  == {s \in VarSlots : Top(Q, s) # "none"}
-Resolved(Q) == {s \in OptSlots : Used(s) /\ Top(Q, s) # "none"} \cup Visible(Q) \cup (IF ArgsUseV THEN {"v"} ELSE {})
+Resolved(Q) == {s \in OptSlots : Used(s) /\ Top(Q, s) # "none"} \cup Visible(Q) \cup ArgsUse
 Errs(Q)     == {Resolve(Q, s).err : s \in Resolved(Q)} \ {"none"}
 
 Result(Q) == [errs  |-> Errs(Q),
@@ -201,7 +202,7 @@ HigherWins == [][\A Q \in Platforms, s \in Slots : \A l \in Eff(Q, s) :
 (* emission of every state for the conformance driver *)
 DefList == {[s |-> s, l |-> l, ref |-> (l \in RefAt(s)), code |-> Code(s, l), next |-> NextSlot(s)] :
                s \in Slots, l \in Raw}
-Case == [family |-> Family, kind |-> OptKind, litform |-> LitForm, obuiltin |-> OBuiltin, usesV |-> ArgsUseV,
+Case == [family |-> Family, kind |-> OptKind, litform |-> LitForm, obuiltin |-> OBuiltin, args |-> ArgsUse,
          used |-> {s \in Slots : Used(s)},
          defs |-> {d \in DefList : d.l \in defs[d.s]},
          exp |-> [Q \in Platforms |-> Result(Q)]]
